@@ -144,8 +144,9 @@ def _replay_score(ob_name, meta, model):
     kind = "NCCAlignment" if "self=NCCAlignment" in ob_name else "ZNCCAlignment"
     return f'''
 import numpy as np
+from scipy.spatial.transform import Rotation
 import acryo.alignment as _alm
-from acryo._utils import lowpass_filter
+from acryo._utils import lowpass_filter_ft
 kind = {kind!r}
 rng = np.random.default_rng(11)
 shape = (10, 11, 12)
@@ -154,15 +155,19 @@ tmpl = (np.exp(-((zz - 4) ** 2 + (yy - 5) ** 2 + (xx - 6) ** 2) / 5.0) + 0.1 * r
 mask = (((zz - 4.5) ** 2 + (yy - 5) ** 2 + (xx - 5.5) ** 2) < 20).astype(np.float32) * 0.5 + 0.5     # soft-ish mask
 img = (0.7 * tmpl + 0.4 * rng.normal(size=shape)).astype(np.float32)
 cutoff = 0.3
-m = getattr(_alm, kind)(tmpl, mask, cutoff=cutoff)
-got = float(m.score(img, np.array([0, 0, 0, 1.0]), np.zeros(3)))
-a = lowpass_filter(img * mask, cutoff).astype(np.float64)
-b = lowpass_filter(tmpl * mask, cutoff).astype(np.float64)
-if kind == "ZNCCAlignment":
-    a, b = a - a.mean(), b - b.mean()
-want = float((a * b).sum() / np.sqrt((a * a).sum() * (b * b).sum()))
-print(kind, "score:", got, "| correlation of the masked, low-passed images:", want)
-ok = abs(got - want) < 1e-4
+ok = True
+for tilt in (None, (-50, 40)):
+    m = getattr(_alm, kind)(tmpl, mask, cutoff=cutoff, tilt=tilt)
+    quat = Rotation.from_rotvec([0.3, -0.5, 0.2]).as_quat()
+    got = float(m.score(img, quat, np.zeros(3)))
+    wedge = np.asarray(m._tilt_model.create_mask(Rotation.from_quat(quat), shape))      # geometry of the wedge: C08
+    a = np.fft.ifftn(lowpass_filter_ft(img * mask, cutoff) * wedge).real.astype(np.float64)
+    b = np.fft.ifftn(lowpass_filter_ft(tmpl * mask, cutoff) * wedge).real.astype(np.float64)
+    if kind == "ZNCCAlignment":
+        a, b = a - a.mean(), b - b.mean()
+    want = float((a * b).sum() / np.sqrt((a * a).sum() * (b * b).sum()))
+    print(kind, "tilt", tilt, "score:", got, "| correlation of the masked, low-passed, wedge-masked images:", want)
+    ok = ok and abs(got - want) < 1e-4
 print("clause holds natively:", ok)
 print("CONFIRMED" if not ok else "NOT-CONFIRMED"); sys.exit(1 if not ok else 0)
 '''
